@@ -19,6 +19,10 @@ func (g *Gen) instr(in ssa.Instruction, st *State, reach string) bool {
 		g.alloc(in, st)
 	case *ssa.Store:
 		addr := g.val(in.Addr, st)
+		switch in.Addr.(type) {
+		case *ssa.FieldAddr, *ssa.IndexAddr:
+			g.guardedWrite(in.Addr, st, reach, in.Pos(), "write to")
+		}
 		g.nilCheck(addr, st, reach, in.Pos(), "store")
 		v := g.val(in.Val, st)
 		g.storeLV(st, g.asLV(addr, in.Pos()), g.rvalue(v, st, in.Pos()))
